@@ -223,9 +223,38 @@ func (a *Operator) useHexBackslashes(input string) string {
 // to be interpreted as a literal.
 func (a *Operator) includeVerticalTabInSpaceClass(input string) string {
 	logger.Trace().Msg("Fixing up regex to include vertical tab (VT) in white space class matches")
-	// A space that starts a range (e.g., `[\s -z]`) must remain the start of that range.
-	result := strings.ReplaceAll(input, `\t\n\f\r -`, `\s\x0b -`)
-	return strings.ReplaceAll(result, `\t\n\f\r `, `\s\x0b`)
+	// The engine prints `\s` as `\t\n\f\r ` inside a character class. The same text outside of a
+	// class is a sequence of five literal characters and must be left alone.
+	const expandedSpaceClass = `\t\n\f\r `
+	var sb strings.Builder
+	inClass := false
+	for i := 0; i < len(input); i++ {
+		char := input[i]
+		if char == '\\' {
+			if inClass && strings.HasPrefix(input[i:], expandedSpaceClass) {
+				sb.WriteString(`\s\x0b`)
+				i += len(expandedSpaceClass) - 1
+				// A space that starts a range (e.g., `[\s -z]`) must remain the start of that range.
+				if i+1 < len(input) && input[i+1] == '-' {
+					sb.WriteByte(' ')
+				}
+				continue
+			}
+			sb.WriteByte(char)
+			if i+1 < len(input) {
+				i++
+				sb.WriteByte(input[i])
+			}
+			continue
+		}
+		if char == '[' && !inClass {
+			inClass = true
+		} else if char == ']' && inClass {
+			inClass = false
+		}
+		sb.WriteByte(char)
+	}
+	return sb.String()
 }
 
 // rassemble-go doesn't provide an option to specify literals.
